@@ -100,6 +100,14 @@ func c13Class(v types.Value) string {
 	return "value-json-roundtrip"
 }
 
+// c13OrderOnly: two encodings that differ at most in the ORDER of array members (and of object keys): equal after the
+// canonical sort.  The repaired class set-hash-collision-order is reported only with this evidence next to a colliding
+// set in the value: a second encoding that differs in content is some other failure, whatever the value contains.
+func c13OrderOnly(a, b []byte) bool {
+	ca, cb := c13Canon(a), c13Canon(b)
+	return !strings.HasPrefix(ca, "invalid-json") && ca == cb
+}
+
 // c13HashCollision: some set inside v has two members with the same internal hash (emission order then
 // depends on insertion order, and flips on every round trip when the hash is MaxUint64).
 func c13HashCollision(v types.Value) bool {
@@ -129,20 +137,21 @@ func c13RoundTrip(c *vh.Ctx, v types.Value, op string) (b []byte) {
 	}
 	out, w := c13DecodeValue(b)
 	fail := ""
+	var b2 []byte
 	switch {
 	case out == "err" || out == "panic":
 		fail = "decoding its own encoding: " + out
 	case !w.Equal(v) || !v.Equal(w):
 		fail = "decoded value differs: " + out
 	default:
-		b2, _ := c13Marshal(w)
+		b2, _ = c13Marshal(w)
 		if !bytes.Equal(b, b2) {
 			fail = "second encoding differs: " + string(b2)
 		}
 	}
 	if fail != "" {
 		cls := c13Class(v)
-		if strings.HasPrefix(fail, "second encoding") && c13HashCollision(v) {
+		if strings.HasPrefix(fail, "second encoding") && c13HashCollision(v) && c13OrderOnly(b, b2) {
 			cls = "set-hash-collision-order"
 		}
 		c.Report(vh.Finding{Class: cls, What: fmt.Sprintf("%s; encoding %s", fail, b), Check: "oracle", Op: op, Input: vh.EncValue(v), Expected: "ok " + vh.ShowValue(v), Actual: out})
@@ -394,7 +403,7 @@ func runC13(c *vh.Ctx) {
 		} else if enc2, _ := c13Marshal(em2); !bytes.Equal(enc, enc2) {
 			ucls := "entitymap-json-unstable"
 			for _, e := range em {
-				if c13HashCollision(e.Attributes) || c13HashCollision(e.Tags) {
+				if (c13HashCollision(e.Attributes) || c13HashCollision(e.Tags)) && c13OrderOnly(enc, enc2) {
 					ucls = "set-hash-collision-order"
 				}
 			}
@@ -445,7 +454,7 @@ func runC13(c *vh.Ctx) {
 			c.Report(vh.Finding{Class: k, What: fmt.Sprintf("request does not round-trip (%s): %s", vh.FirstWordC13(ro), rb), Check: "oracle", Op: "rjson", Input: string(rb)})
 		} else if rb2, _ := c13Marshal(req2); !bytes.Equal(rb, rb2) {
 			ucls := "request-json-unstable"
-			if c13HashCollision(ctx) {
+			if c13HashCollision(ctx) && c13OrderOnly(rb, rb2) {
 				ucls = "set-hash-collision-order"
 			}
 			c.Report(vh.Finding{Class: ucls, What: fmt.Sprintf("second encoding differs: %s vs %s", rb, rb2), Check: "oracle", Op: "rjson", Input: string(rb)})
